@@ -214,6 +214,8 @@ pub fn run(ctx: &Ctx) -> Report {
         }
         explicit.push((5, cnfs, "n5_wide4_plus_2_binary".to_string()));
     }
+    // long inputs: clauses with up to maxk literals and lists of up to maxk unit clauses
+    explicit.push((3, long_lists(ctx.tier.pick(9, 14)), "n3_long_clauses_and_long_unit_lists".to_string()));
     for (n, sets, name) in explicit {
         let chunks: Vec<&[Vec<Clause>]> = sets.chunks(if n >= 5 { 8 } else { 48 }).collect();
         let fam = par_run(ctx, &chunks, |_, chunk| {
